@@ -736,10 +736,11 @@ Fixpoint slicearray_ravel_rec (d : nat) (out fromptr shape strides : list Z) (to
         let* x := kget fromptr (foff + i * st) in
         kupd out (toff + i) x) out
     else
+      (* blocksize = shape[1] * ... * shape[ndim-1] (fix b22ac49 of /repo: it was shape[1] alone) *)
+      let* bs := kfor 1 ndim (fun k acc => let* sk := kget shape (soff + k) in KOk (acc * sk)) 1 in
       kfor 0 s0 (fun i out =>
-        let* s1 := kget shape (soff + 1) in
         let* st := kget strides soff in
-        slicearray_ravel_rec d' out fromptr shape strides (toff + i * s1) (foff + i * st) (soff + 1) (ndim - 1)) out
+        slicearray_ravel_rec d' out fromptr shape strides (toff + i * bs) (foff + i * st) (soff + 1) (ndim - 1)) out
   end.
 Definition slicearray_ravel (toptr fromptr : list Z) (ndim : Z) (shape strides : list Z) : kres (list Z) :=
   slicearray_ravel_rec (S (Z.to_nat ndim)) toptr fromptr shape strides 0 0 0 ndim.
